@@ -35,11 +35,12 @@ const (
 	KDefer   = "defer"
 	KReturn  = "return"
 	KRaise   = "raise"
-	KErrNew  = "errnew" // XErr.new("msg") as an expression (raises at construction)
-	KNat     = "nat"    // an expression the interpreter itself fails on: Names[0] = source, Str = kind, Msg = message
-	KIter    = "iter"   // <{|i| pre; yield i if i < Int; post; recur(i + 1)}>.new(0)   (L = pre, Post = post statements)
-	KNative  = "native" // recv.<Str: map|select|exclude|all?|any?|reduce>(callback B [, init: C]); Bool = trailing-block form
-	KTry     = "try"    // recv.try.{|x| body}.<accessor Str: val | or | err?>  (C = default of or)
+	KErrNew  = "errnew"  // XErr.new("msg") as an expression (raises at construction)
+	KNat     = "nat"     // an expression the interpreter itself fails on: Names[0] = source, Str = kind, Msg = message
+	KIter    = "iter"    // <{|i| pre; yield i if i < Int; post; recur(i + 1)}>.new(0)   (L = pre, Post = post statements)
+	KNative  = "native"  // recv.<Str: map|select|exclude|all?|any?|reduce>(callback B [, init: C]); Bool = trailing-block form
+	KAssignE = "assigne" // (Str := A) as an expression
+	KTry     = "try"     // recv.try.{|x| body}.<accessor Str: val | or | err?>  (C = default of or)
 	KProgram = "program"
 )
 
@@ -409,6 +410,10 @@ func printExpr(sb *strings.Builder, n *N, depth int) {
 			printExpr(sb, n.C, depth)
 			sb.WriteString(")")
 		}
+	case KAssignE:
+		sb.WriteString("(" + n.Str + " := ")
+		printExpr(sb, n.A, depth)
+		sb.WriteString(")")
 	case KNative:
 		printRecv(sb, n.A, depth)
 		sb.WriteString("." + n.Str)
